@@ -5,6 +5,7 @@ import ast
 import datetime
 import decimal
 import io
+import itertools
 import struct
 import threading
 from typing import Callable, Dict, Iterable, List, Optional, Sequence, Set, Tuple
@@ -303,6 +304,9 @@ _PURE = {"int": int, "float": float, "str": str, "repr": repr, "len": len, "byte
          "any": any, "all": all, "round": round, "hex": hex, "iter": iter, "next": next, "frozenset": frozenset}
 _STRUCT = {"struct.pack": struct.pack, "pack": struct.pack, "struct.unpack": struct.unpack, "unpack": struct.unpack,
            "struct.calcsize": struct.calcsize, "calcsize": struct.calcsize, "struct.Struct": struct.Struct, "Struct": struct.Struct}
+_ITERTOOLS = {"chain": itertools.chain, "itertools.chain": itertools.chain, "chain.from_iterable": itertools.chain.from_iterable,
+              "itertools.chain.from_iterable": itertools.chain.from_iterable, "islice": itertools.islice, "itertools.islice": itertools.islice,
+              "zip_longest": itertools.zip_longest, "itertools.zip_longest": itertools.zip_longest, "repeat": itertools.repeat, "itertools.repeat": itertools.repeat}
 _NOOPS = {"log.msg", "log.err", "warnings.warn", "_log.failure", "_log.info", "_log.debug", "_log.warn", "_log.error", "log.info"}
 _OBJ_METHODS = {  # methods that may be called on plain Python values, by receiver type
     (str, bytes, bytearray): {"encode", "decode", "lower", "upper", "strip", "lstrip", "rstrip", "join", "startswith", "endswith", "find", "split",
@@ -332,6 +336,21 @@ def _err_name(e: BaseException) -> str:
 def _plain(v):
     """DictInst -> its dict, for builtins such as len / sorted / list."""
     return v.data if isinstance(v, DictInst) else v
+
+
+def _iterable(v, what: str = "iteration"):
+    """A Python value interpreted code may iterate; models, stubs and opaque values are not (-> Unsupported, never a crash of the analyser)."""
+    if isinstance(v, DictInst):
+        return v.data
+    if isinstance(v, (Inst, Stub, Opaque, OpaqueInst, NativeModel, Raised)):
+        raise Unsupported(f"{what} over {type(v).__name__}")
+    if isinstance(v, (int, float, type(None), bool)):
+        raise Raised("TypeError")
+    try:
+        iter(v)
+    except TypeError:
+        raise Unsupported(f"{what} over {type(v).__name__}")
+    return v
 
 
 def _mod_find(m, name: str):
@@ -368,6 +387,7 @@ class GenValue:
         self._seg: List[object] = []
         self._dextra = 0
         self._base = self._depth0 = 0
+        self._throw: Optional[BaseException] = None
 
     def __iter__(self):
         return self
@@ -396,7 +416,18 @@ class GenValue:
         self._to_gen.acquire()
         if self._closed:
             raise _GenClosed()
+        if self._throw is not None:
+            e, self._throw = self._throw, None
+            raise e
         return None
+
+    def throw(self, exc: BaseException):
+        """Resume the generator by raising `exc` at the yield it is suspended at (what contextlib.contextmanager does on an exception in the body)."""
+        if self._done or self._thread is None:
+            self._done = True
+            raise exc
+        self._throw = exc
+        return self.__next__()
 
     def __next__(self):
         if self._done:
@@ -428,11 +459,34 @@ class GenValue:
         self._closed = True
         ev = self.ev
         base, depth = len(ev._cls_stack), ev.depth
+        ev._cls_stack.extend(self._seg)          # the suspended frames unwind on their own part of the interpreter stacks
+        ev.depth += self._dextra
+        self._seg, self._dextra = [], 0
+        self._base, self._depth0 = base, depth
         self._to_gen.release()
         self._to_con.acquire()
         del ev._cls_stack[base:]
         ev.depth = depth
         self._done = True
+
+
+class _SuppressCM:
+    """contextlib.suppress(E1, E2, ...): the exception classes are kept as the expressions they were written as (handlers match by name)."""
+
+    def __init__(self, type_exprs: List[ast.expr]):
+        self.handler = ast.ExceptHandler(type=ast.Tuple(elts=list(type_exprs), ctx=ast.Load()), name=None, body=[ast.Pass()])
+
+
+class _NullCM:
+    def __init__(self, value=None):
+        self.value = value
+
+
+class _GenCM:
+    """The object a @contextlib.contextmanager function returns."""
+
+    def __init__(self, gen: GenValue):
+        self.gen = gen
 
 
 def _is_generator_def(f) -> bool:
@@ -735,7 +789,10 @@ class MiniEval:
                         if self._cls_stack:
                             self._cls_stack.pop()
                         self.depth -= 1
-                return GenValue(self, run)
+                gen = GenValue(self, run)
+                if any((dotted(d) or "").split(".")[-1] == "contextmanager" for d in getattr(f, "decorator_list", [])):
+                    return _GenCM(gen)
+                return gen
             r = self.block(f.body, env)
             return r[1] if r and r[0] == "return" else None
         finally:
@@ -884,11 +941,7 @@ class MiniEval:
         if isinstance(st, ast.If):
             return self.block(st.body if self.truth(self.expr(st.test, env)) else st.orelse, env)
         if isinstance(st, ast.For):
-            it = _plain(self.expr(st.iter, env))
-            if isinstance(it, (int, float, type(None), bool)):
-                raise Raised("TypeError")
-            if isinstance(it, (Inst, Stub, Opaque, NativeModel)):
-                raise Unsupported("iteration over " + type(it).__name__)
+            it = _iterable(_plain(self.expr(st.iter, env)))
             broke = False
             lazy = isinstance(it, GenValue)
             try:
@@ -963,6 +1016,8 @@ class MiniEval:
                     if fr is not None:
                         return fr
             return r
+        if isinstance(st, ast.With):
+            return self._with(st.items, st.body, env)
         if isinstance(st, ast.Delete):
             for t in st.targets:
                 if isinstance(t, ast.Name):
@@ -999,6 +1054,81 @@ class MiniEval:
                 env[(a.asname or a.name).split(".")[0]] = Opaque(a.asname or a.name)
             return None
         raise Unsupported("statement " + type(st).__name__)
+
+    # ---- with -----------------------------------------------------------------------------------------------------------
+    def _with(self, items, body, env):
+        """`with cm [as x]: body`  =  enter; try: body; except: if not exit(exc): raise; else: exit(None)  - for contextlib.suppress / nullcontext,
+        generator functions decorated with contextmanager, and instances of analysed classes defining __enter__/__exit__."""
+        if not items:
+            return self.block(body, env)
+        item = items[0]
+        ce = item.context_expr
+        cm = None
+        if isinstance(ce, ast.Call) and (dotted(ce.func) or "") in ("suppress", "contextlib.suppress") and (dotted(ce.func) or "").split(".")[0] not in env \
+                and not isinstance(self.find("suppress"), (ast.FunctionDef, ast.ClassDef)):
+            if ce.keywords or any(isinstance(a, ast.Starred) for a in ce.args):
+                raise Unsupported("suppress() with computed arguments")
+            cm = _SuppressCM(ce.args)
+        elif isinstance(ce, ast.Call) and (dotted(ce.func) or "") in ("nullcontext", "contextlib.nullcontext") and (dotted(ce.func) or "").split(".")[0] not in env:
+            cm = _NullCM(self.expr(ce.args[0], env) if ce.args else None)
+        else:
+            cm = self.expr(ce, env)
+        # enter
+        if isinstance(cm, _SuppressCM):
+            entered = None
+        elif isinstance(cm, _NullCM):
+            entered = cm.value
+        elif isinstance(cm, _GenCM):
+            try:
+                entered = next(cm.gen)
+            except StopIteration:
+                raise Raised("RuntimeError")      # generator didn't yield
+        elif isinstance(cm, Inst) and self.lookup(cm.cls, "__enter__") is not None and self.lookup(cm.cls, "__exit__") is not None:
+            entered = self.method(cm, "__enter__", [])
+        elif isinstance(cm, (Stub, Opaque, OpaqueInst)):
+            entered = cm          # an unanalysed manager (a lock, a log context ...): no effect of its own, nothing suppressed
+        else:
+            raise Unsupported("context manager " + type(cm).__name__)
+        if item.optional_vars is not None:
+            self.store(item.optional_vars, entered, env)
+
+        def leave(ex: Optional[Raised]) -> bool:
+            """-> the exception is suppressed"""
+            if isinstance(cm, _SuppressCM):
+                return ex is not None and self._handler_matches(cm.handler, ex, env)
+            if isinstance(cm, _GenCM):
+                if ex is None:
+                    try:
+                        next(cm.gen)
+                    except StopIteration:
+                        return False
+                    raise Raised("RuntimeError")  # generator didn't stop
+                try:
+                    cm.gen.throw(ex)
+                except StopIteration:
+                    return True
+                except Raised as ex2:
+                    if ex2 is ex:
+                        return False
+                    raise
+                raise Raised("RuntimeError")      # generator didn't stop after throw()
+            if isinstance(cm, Inst):
+                if ex is None:
+                    self.method(cm, "__exit__", [None, None, None])
+                    return False
+                c = self.find(ex.name)
+                etype = _ClassRef(c) if isinstance(c, ast.ClassDef) else Opaque(ex.name)
+                return self.truth(self.method(cm, "__exit__", [etype, ex.value if ex.value is not None else ex, None]))
+            return False
+
+        try:
+            r = self._with(items[1:], body, env)
+        except Raised as ex:
+            if leave(ex):
+                return None
+            raise
+        leave(None)
+        return r
 
     def _handler_matches(self, h: ast.ExceptHandler, ex: Raised, env) -> bool:
         if h.type is None:
@@ -1298,7 +1428,7 @@ class MiniEval:
         out = []
         for e in elts:
             if isinstance(e, ast.Starred):
-                out.extend(list(_plain(self.expr(e.value, env))))
+                out.extend(list(_iterable(_plain(self.expr(e.value, env)), "unpacking")))
             else:
                 out.append(self.expr(e, env))
         return out
@@ -1390,6 +1520,18 @@ class MiniEval:
                 raise Raised(_err_name(e))
         if fname in ("BytesIO", "io.BytesIO") and not local:
             return io.BytesIO(*args)
+        if fname in _ITERTOOLS and fname.split(".")[0] not in env and not isinstance(self.find(fname.split(".")[0]), (ast.FunctionDef, ast.ClassDef)):
+            pargs = [_plain(a) for a in args]
+            if fname.endswith("from_iterable") and len(pargs) == 1:
+                pargs = [(_iterable(_plain(x), "chain.from_iterable") for x in _iterable(pargs[0], "chain.from_iterable"))]
+            elif fname.split(".")[-1] in ("chain", "zip_longest"):
+                pargs = [_iterable(a, fname) for a in pargs]
+            elif fname.split(".")[-1] == "islice" and pargs:
+                pargs[0] = _iterable(pargs[0], fname)
+            try:
+                return _ITERTOOLS[fname](*pargs, **kw)
+            except _PY_ERRORS as e:
+                raise Raised(_err_name(e))
         if fname == "getattr" and len(args) in (2, 3) and isinstance(args[1], str):
             try:
                 return self.getattr_value(args[0], args[1])
@@ -1520,6 +1662,10 @@ def run_eval(fn):
         return "unsupported", str(ex)
     except RecursionError:
         return "unsupported", "recursion limit of the analyser"
+    except AnalysisError:
+        raise
+    except Exception as e:      # a Python-level error inside the interpreter itself: the construct is not modelled - never a crash of the analyser
+        return "unsupported", f"the interpreter cannot evaluate this ({type(e).__name__}: {e})"
 
 
 # ---- DNS: the encode/decode family ----------------------------------------------------------------------------------
